@@ -48,3 +48,65 @@ def error_types():
         dict(src='src/de_error.rs', path='impl Error/fn with_location', trusted=True,
              ensures=[('keeps_kind', 'error_kind_same(self, r)')]),
     ]
+
+
+PSPAN = [(r'\bSpan\b', 'ParserSpan', None, 'R6')]
+
+def parser_span_types():
+    """saphyr-parser's Marker / Span, extracted from the dependency source (Span renamed ParserSpan, as
+    src/location.rs imports it)."""
+    sc = SAPHYR + 'scanner.rs'
+    return [
+        dict(src=sc, path='struct MarkerOffsets', derive='#[derive(Clone, Copy)]'),
+        dict(src=sc, path='struct Marker', derive='#[derive(Clone, Copy)]'),
+        dict(src=sc, path='struct Span', id='ParserSpan', rewrites=PSPAN, derive='#[derive(Clone, Copy)]'),
+        dict(src=sc, path='impl Marker/fn index', ensures=[('value', 'r == self.offsets.chars')], vacuity=False),
+        dict(src=sc, path='impl Marker/fn byte_offset', ensures=[('value', 'r == self.offsets.bytes')], vacuity=False),
+        dict(src=sc, path='impl Marker/fn line', ensures=[('value', 'r == self.line')], vacuity=False),
+        dict(src=sc, path='impl Marker/fn col', ensures=[('value', 'r == self.col')], vacuity=False),
+        dict(src=sc, path='impl Span/fn len', id='ParserSpan::len', impl_header='impl ParserSpan',
+             requires=[('marks_ordered', 'self.start.offsets.chars <= self.end.offsets.chars')],
+             ensures=[('value', 'r == self.end.offsets.chars - self.start.offsets.chars')], vacuity=False),
+    ]
+
+def location_fns(props=('C16', 'C01')):
+    P = list(props)
+    return [
+        dict(src='src/location.rs', path='impl Location/fn new', props=P,
+             requires=[('below_4g', 'line <= u32::MAX && column <= u32::MAX')],
+             ensures=[('value', 'r == (Location { line: line as u32, column: column as u32, span: Span::UNKNOWN })')],
+             canaries=['value']),
+        dict(src='src/location.rs', path='impl Location/fn with_span', props=P,
+             ensures=[('value', 'r == (Location { span: span, ..self })')], canaries=['value']),
+        dict(src='src/location.rs', path='fn location_from_span', props=P,
+             requires=[('marks_ordered_and_below_4g', '''span.start.offsets.chars <= span.end.offsets.chars
+                    && span.end.offsets.chars <= u32::MAX && span.start.line <= u32::MAX && span.start.col < u32::MAX''')],
+             ensures=[('C16:one_based_column_char_and_byte_offsets', '''
+                    r.line == span.start.line && r.column == span.start.col + 1
+                    && r.span.offset == span.start.offsets.chars
+                    && r.span.len == span.end.offsets.chars - span.start.offsets.chars
+                    && r.span.byte_info == (match (span.start.offsets.bytes, span.end.offsets.bytes) {
+                        (Some(sb), Some(eb)) => { let len = if eb >= sb { eb - sb } else { 0 };
+                            if sb > u32::MAX || len > u32::MAX { (0u32, 0u32) } else { (sb as u32, len as u32) } },
+                        _ => (0u32, 0u32) })''')],
+             canaries=['C16:one_based_column_char_and_byte_offsets']),
+    ]
+
+
+def events_trait():
+    """`trait Events` of src/de.rs with the cursor contract every event source has to meet."""
+    return dict(src='src/de.rs', path='trait Events',
+        trait_extra='''
+    /// ghost: the events this source will still deliver (if no error intervenes)
+    spec fn rest(&self) -> Seq<Ev<'de>>;
+''',
+        trait_methods={
+            'next': dict(ensures=[('cursor', '''match r {
+                Ok(Some(e)) => old(self).rest().len() > 0 && e == old(self).rest()[0] && final(self).rest() == old(self).rest().skip(1),
+                Ok(None) => old(self).rest().len() == 0 && final(self).rest() == old(self).rest(),
+                Err(_) => true }''')]),
+            'peek': dict(ensures=[('cursor', '''match r {
+                Ok(Some(e)) => final(self).rest() == old(self).rest() && old(self).rest().len() > 0 && *e == old(self).rest()[0],
+                Ok(None) => final(self).rest() == old(self).rest() && old(self).rest().len() == 0,
+                Err(_) => true }''')]),
+        })
